@@ -93,6 +93,9 @@ retry:
 			}
 		case '\\':
 			if p.r == '\\' {
+				// Make sure the byte after the backslash is buffered
+				// for the backquote test below, however the reader chunks its input.
+				p.peek()
 			} else if p.peek() == '\n' {
 				p.bsp++
 				p.w, p.r = 1, escNewl
